@@ -842,7 +842,7 @@ def shapes(tier, seed):
         n = _nparams(kind, cfg)
         cn = _cname(cfg)
         r = random.Random(f"{seed}/{kind}/{cn}/{tier}")
-        pats = patterns(n, tier, r, nt_extra if T else nq_extra)
+        pats = patterns(n, tier, r, 3 * nt_extra if T else nq_extra)
         if not T:
             pats = pats[:5 + nq_extra]
         for t in pats:
